@@ -423,6 +423,7 @@ def msg_append_entries(ctx, kind):
                                     'raftLastApplied'], 'C03+C01:R1.stale-leader-ignored')
         return
     ctx.prove(t1 == Max(t0, mt), 'C03:R1.term-is-max')
+    ctx.prove(so.get('commandsLocalCounter') >= old.get('commandsLocalCounter'), 'C02:O2.3c.request-ids-never-reused.counter-monotone')
     ctx.prove(so.get('raftState') == FOLL, 'C03:R1.follower-after-append_entries')
     ctx.prove(Eq(so.get('raftLeader'), node), 'C03:leader-recorded')
     ctx.prove(Ite(mt > t0, Eq(so.get('votedForNodeId'), None), Eq(so.get('votedForNodeId'), old.get('votedForNodeId'))),
